@@ -2379,20 +2379,13 @@ impl Ord for Element {
 
         // sort by item name if present
         if let (Some(name1), Some(name2)) = (self.item_name(), other.item_name()) {
-            // both items have a name - try to decompose the name into a base and an index
+            // both items have a name - decompose each name into a base and an index
             // this allows for a more natural sorting of indexed items (e.g. "item2" < "item10")
-            if let (Some((base1, idx1)), Some((base2, idx2))) =
-                (decompose_item_name(&name1), decompose_item_name(&name2))
-            {
-                if base1 == base2 {
-                    let result = idx1.cmp(&idx2);
-                    if result != Ordering::Equal {
-                        return result;
-                    }
-                }
-            }
-            // if the decomposition fails, then just compare the full item names
-            let result = name1.cmp(&name2);
+            // Comparing (base, index) for all names gives a total order, so the result of sorting does not
+            // depend on the previous order of the elements; a name without a trailing number has no index
+            let (base1, idx1) = decompose_item_name(&name1);
+            let (base2, idx2) = decompose_item_name(&name2);
+            let result = base1.cmp(base2).then(idx1.cmp(&idx2)).then_with(|| name1.cmp(&name2));
             if result != Ordering::Equal {
                 return result;
             }
@@ -2453,16 +2446,17 @@ impl PartialOrd for Element {
 /// The index is expected to be a decimal number at the end of the string
 ///
 /// E.g. "item123" -> ("item", 123)
-fn decompose_item_name(name: &str) -> Option<(String, u64)> {
+fn decompose_item_name(name: &str) -> (&str, Option<u64>) {
     let bytestr = name.as_bytes();
     let mut pos = bytestr.len();
     while pos > 0 && bytestr[pos - 1].is_ascii_digit() {
         pos -= 1;
     }
     if let Ok(index) = name[pos..].parse() {
-        Some((name[0..pos].to_owned(), index))
+        (&name[0..pos], Some(index))
     } else {
-        None
+        // no trailing number (or it is too large to be treated as a number)
+        (name, None)
     }
 }
 
